@@ -98,6 +98,7 @@ def work(arg):
         if got64 != exp64:
             p.violation("crc64-mismatch", m.hex(), "crc64(%s)=%r expected %r" % (m.hex(), got64, exp64),
                         dict(func="crc64", input_hex=m.hex(), got=got64, expected=exp64))
+        p.outcome("crc16 top nibble %x / crc64 top nibble %x" % (exp16 >> 12, e >> 60))
         if p.evaluations % 9973 == 1:
             p.sample(dict(input_hex=m.hex(), crc16=exp16, crc64=list(exp64)))
     return p
